@@ -9,6 +9,9 @@ them -- the epsilon test, the max_value clamp, the clip to [min_exp, max_exp], t
 
   gen_clip_po2 (lgr lgf lgrs lgfs : rat -> Z) (floor_mode quad has_mv : bool) (mn mx : Z) (mv xabs : rat) : Z
   gen_po2_xq (e : Z) (x : rat) : rat          quantized_po2.__call__: the sign arithmetic times 2^e, e the exponent returned for |x|
+  gen_rpo2_xq (clipf : rat -> Z) (leaky : bool) (slope x : rat) : rat     quantized_relu_po2.__call__: the quantized value; clipf is
+                                                                          _clip_power_of_two with this quantizer's fields
+  gen_rpo2_xu (has_mv : bool) (slope mv x : rat) : rat                    its unquantized surrogate
 
 Link/Po2CallLink.v proves that with the exact oracles (exp_rnd, exp_floor of Quant/Po2.v) and without the quadratic option this is
 clip_po2, the function every C03 theorem is stated on."""
@@ -202,8 +205,77 @@ def translate_call():
   return to_r(it.env["xq"])
 
 
+def translate_relu_call():
+  """quantized_relu_po2.__call__: the quantized value, with this quantizer's _clip_power_of_two as the function parameter clipf"""
+  from translate import qbitsgen
+  from translate.lingen import to_r
+
+  class RP2(qbitsgen.QB):
+    def val(self, n):
+      src = ast.unparse(n)
+      line = getattr(n, "lineno", 0)
+      if src == "self.negative_slope == 0.0":
+        return ("b", "(negb leaky)")
+      if isinstance(n, ast.Call):
+        f = ast.unparse(n.func)
+        if f == "_clip_power_of_two":
+          rest = [ast.unparse(a) for a in n.args[1:]]
+          if rest != ["self._min_exp", "self._max_exp", "self.max_value", "self.quadratic_approximation", "self.use_stochastic_rounding", "self.log2_rounding"]:
+            raise Fail(f"line {line}: arguments of _clip_power_of_two")
+          return ("z", f"(clipf {to_r(self.val(n.args[0]), line)})")
+        if f == "pow" and len(n.args) == 2 and ast.unparse(n.args[0]) == "2.0":
+          a = self.val(n.args[1])
+          if a[0] == "z":
+            return ("r", f"(rpow2 {a[1]})")
+        if f == "K.relu" and len(n.args) == 1 and not n.keywords:
+          return ("r", f"(lrelu (0, 1) {to_r(self.val(n.args[0]), line)})")
+        if f == "K.relu" and len(n.args) == 2 and ast.unparse(n.args[1]) == "self.negative_slope":
+          return ("r", f"(lrelu slope {to_r(self.val(n.args[0]), line)})")
+        if f == "tf.logical_or" and len(n.args) == 2:
+          a, b = self.val(n.args[0]), self.val(n.args[1])
+          if a[0] == "b" and b[0] == "b":
+            return ("b", f"({a[1]} || {b[1]})")
+        if f == "tf.where" and len(n.args) == 3:
+          c = self.val(n.args[0])
+          if c[0] == "b":
+            return ("r", f"(if {c[1]} then {to_r(self.val(n.args[1]), line)} else {to_r(self.val(n.args[2]), line)})")
+        if f == "tf.ones_like":
+          return ("r", "(1, 1)")
+      if isinstance(n, ast.BinOp) and isinstance(n.op, ast.Mult) and isinstance(n.left, ast.Call) and ast.unparse(n.left.func) == "tf.ones_like":
+        return self.val(n.right)
+      if isinstance(n, ast.Compare) and len(n.ops) == 1 and isinstance(n.ops[0], (ast.GtE, ast.LtE)):
+        a, b = self.val(n.left), self.val(n.comparators[0])
+        if a[0] in ("r", "z") and b[0] in ("r", "z"):
+          l_, r_ = to_r(a, line), to_r(b, line)
+          return ("b", f"(rle {r_} {l_})" if isinstance(n.ops[0], ast.GtE) else f"(rle {l_} {r_})")
+      return super().val(n)
+
+    def run(self, stmts):
+      for st in stmts:
+        if self.ret is not None:
+          return
+        if isinstance(st, ast.If) and ast.unparse(st.test) == "self.max_value is None":
+          a, b = RP2(self.cls, self.attrs, self.env), RP2(self.cls, self.attrs, self.env)
+          a.run(st.body)
+          b.run(st.orelse)
+          self.env = self.merge("(negb has_mv)", a.env, b.env, st.lineno)
+          continue
+        super().run([st])
+
+  tree = ast.parse(open(os.path.join(REPO, "qkeras", "quantizers.py")).read())
+  cls = next(n for n in tree.body if isinstance(n, ast.ClassDef) and n.name == "quantized_relu_po2")
+  call = next(f for f in cls.body if isinstance(f, ast.FunctionDef) and f.name == "__call__")
+  it = RP2(cls, {"self.negative_slope": ("r", "slope"), "self.max_value": ("r", "mv")}, {"x": ("r", "x")})
+  it.run(call.body)
+  if it.ret != ("done",) or "xq" not in it.env or "x" not in it.env:
+    raise Fail("quantized_relu_po2.__call__ does not reach the straight-through return with xq")
+  if "x + tf.stop_gradient(self.qnoise_factor * (-x + xq))" not in ast.unparse(call):
+    raise Fail("quantized_relu_po2.__call__: the straight-through return is not built on x and xq")
+  return to_r(it.env["xq"]), to_r(it.env["x"])
+
+
 HEADER = ["(* GENERATED by tools/translate/po2callgen.py from qkeras/quantizers.py -- do not edit *)",
-          "From Coq Require Import ZArith Bool.", "From QV Require Import Base.ZQ Base.FL Quant.Po2 Quant.BinTern Quant.BinTernSrc.", "Open Scope Z_scope.", ""]
+          "From Coq Require Import ZArith Bool.", "From QV Require Import Base.ZQ Base.FL Quant.Po2 Quant.BinTern Quant.BinTernSrc Quant.ReluSrc.", "Open Scope Z_scope.", ""]
 SIG = "(lgr lgf lgrs lgfs : rat -> Z) (floor_mode quad has_mv : bool) (mn mx : Z) (mv xabs : rat) : Z"
 
 
@@ -216,12 +288,17 @@ def emit(outdir):
     arms = [f"  | {bl(f)}, {bl(q)}, {bl(m)} => {t[(f, q, m)]}" for f in (True, False) for q in (True, False) for m in (True, False)]
     lines.append(f"Definition gen_clip_po2 {SIG} :=\n  match floor_mode, quad, has_mv with\n" + "\n".join(arms) + "\n  end.")
     lines.append(f"Definition gen_po2_xq (e : Z) (x : rat) : rat :=\n  {translate_call()}.")
+    rxq, rxu = translate_relu_call()
+    lines.append(f"Definition gen_rpo2_xq (clipf : rat -> Z) (leaky : bool) (slope x : rat) : rat :=\n  {rxq}.")
+    lines.append(f"Definition gen_rpo2_xu (has_mv : bool) (slope mv x : rat) : rat :=\n  {rxu}.")
   except Fail as e:
     ok, why = False, str(e)
   except (OSError, SyntaxError, KeyError, IndexError, AttributeError, StopIteration) as e:
     ok, why = False, f"{type(e).__name__}: {e}"
   if not ok:
-    lines = list(HEADER) + ["(* translation failed: " + why.replace("*)", "* )") + " *)", f"Definition gen_clip_po2 {SIG} := mx + 1.", "Definition gen_po2_xq (e : Z) (x : rat) : rat := (0, 1)."]
+    lines = list(HEADER) + ["(* translation failed: " + why.replace("*)", "* )") + " *)", f"Definition gen_clip_po2 {SIG} := mx + 1.", "Definition gen_po2_xq (e : Z) (x : rat) : rat := (0, 1).",
+                            "Definition gen_rpo2_xq (clipf : rat -> Z) (leaky : bool) (slope x : rat) : rat := (0, 1).",
+                            "Definition gen_rpo2_xu (has_mv : bool) (slope mv x : rat) : rat := (0, 1)."]
   lines.append(f"Definition po2call_translation_ok : bool := {'true' if ok else 'false'}.")
   path = os.path.join(outdir, "Po2CallGen.v")
   with open(path, "w") as f:
